@@ -3,9 +3,19 @@
 Core tier  : checks/c11_core.py (Dedup.tla on the real WaitGroup and the real Cache.ServeDNS under gated schedules).
 Engine tier: checks/c11_engine.py (UpFault.tla fault scripts played by scripted authorities against the real full
              pipeline on real UDP+TCP sockets).
+Deadline   : checks/x11dl.py (LazyDeadline.tla / InterruptGroup.tla: forced schedules, concurrent histories, fan-out).
 """
 import c11_core
 import c11_engine
+import x11dl
+
+
+def _fresh_overlay(ctx):
+    """the overlay file list is cached per run: drop it when a tier brings its own shims"""
+    import os
+    ov = os.path.join(ctx.scratch, "overlay.json")
+    if os.path.exists(ov):
+        os.remove(ov)
 
 
 def run(ctx, replay):
@@ -14,3 +24,7 @@ def run(ctx, replay):
         return
     c11_core.run_core(ctx)
     c11_engine.run_engine(ctx)
+    # the request deadline and the straggler interruption behind "in time": LazyDeadline.tla / InterruptGroup.tla
+    ctx.overlay_tags.add("x11dl")
+    _fresh_overlay(ctx)
+    x11dl.run_tier(ctx)
